@@ -4,7 +4,7 @@ namespace SameVerif
 open SameVerif.Spec
 
 /-- while the power is below the open threshold a quiescent receiver stays quiescent -/
-theorem quiet_run (c : LCfg) (xs : List Tick) (hx : ∀ x ∈ xs, x.1.openOk = false) :
+theorem quiet_run_closed (c : LCfg) (xs : List Tick) (hx : ∀ x ∈ xs, x.1.openOk = false) :
     ∀ s, Quiescent s →
       (∀ ls ∈ lrun c s xs, ls = .noCarrier) ∧ lrunBursts c s xs = []
         ∧ Quiescent (lrunState c s xs) := by
@@ -107,7 +107,7 @@ theorem burst_whole (H : BurstObserved pl lead body tail acq rel) (hok : Payload
     (c : LCfg) (hE : c.maxErrors ≤ 6) (hF : PrefixFacts c.fc pl) (s : LState) (hq : Quiescent s) :
     ∃ g, lrunBursts c s (lead ++ body ++ tail) = [pl ++ g] ∧ g.length ≤ (rel + 7) / 8
       ∧ Quiescent (lrunState c s (lead ++ body ++ tail)) := by
-  obtain ⟨_, l2, l3⟩ := quiet_run c lead H.lead_closed s hq
+  obtain ⟨_, l2, l3⟩ := quiet_run_closed c lead H.lead_closed s hq
   obtain ⟨g, b1, b2, b3⟩ := burst_body_tail H hok hdash c hE hF _ l3
   refine ⟨g, ?_, b2, ?_⟩
   · rw [List.append_assoc, lrunBursts_append, l2, b1]; rfl
